@@ -73,6 +73,9 @@ fn span_fields<'tcx>(cx: &Cx<'tcx>, sp: Span, v: &mut Vec<(&'static str, J)>) {
     let (line, exp) = cx.span_info(sp);
     v.push(("ln", J::Int(line as i128)));
     v.push(("exp", J::opt_s(exp)));
+    if let Some(c) = cx.span_chain(sp) {
+        v.push(("expc", J::s(c)));
+    }
 }
 
 fn stmt<'tcx>(
